@@ -140,15 +140,17 @@ Proof. vm_compute. repeat split; reflexivity. Qed.
    successful result is CLOSED in the full sense of the Spec, and every member is the WINNER of its
    name: the package bestPackage returns for an unconstrained request of that name on a fresh resolver.
    The side condition: no install_if; no dependency on a self-provided name; provided names are not
-   package names; every key of the name map lists packages of one name, the winner of that name among
-   them, and under that key the winner beats every other package listed both ways round (no
-   transitivity of comparePackages is assumed); packages of one name share the origin and, if there
+   package names; every key of the name map lists EITHER packages of one name, the winner of that name
+   among them, and under that key the winner beats every other package listed both ways round (no
+   transitivity of comparePackages is assumed), OR — a pure virtual with several provider names — winners
+   only, each providing the key without a version; packages of one name share the origin and, if there
    are two or more, none is pinned; version operators only on package names; the winner passes every
    versioned dependency / request on its name with its own version (or no package of that name does);
    a conflict entry that excludes a winner excludes all packages of its name; no "!name" request.
    The findings C02-F1, F1b, F1c, F2, F3, F4, F5, F6 each violate a clause (next theorem).
-   PARTIAL in this sense only: several packages of DIFFERENT names under one virtual are outside
-   (no violation is known there; left undone, notes/C02.md). *)
+   PARTIAL in this sense only: a virtual with several provider NAMES is inside only when it is provided
+   without a version and only by the best version of each name (otherwise no violation is known either;
+   left undone, notes/C02.md). *)
 Theorem c02_closed_multi_version : forall U W dq0 S,
   menvelope_b U W = true -> dq0_ok_b U dq0 = true -> resolve U W dq0 = Ok S ->
   Closed U W (pkgs_of U S) /\
@@ -164,6 +166,12 @@ Example c02_closed_multi_version_example :
   dq0_ok_b U_multi [] = true /\ resolve U_multi ["a"; "b"; "c<9"] [] = Ok [1; 4; 0] /\
   closed_b U_multi ["a"; "b"; "c<9"] (pkgs_of U_multi [1; 4; 0]) = true.
 Proof. exact multi_example. Qed.
+(* a pure virtual with three provider names of different priorities, next to a name with two versions *)
+Example c02_closed_multi_version_example_virtual :
+  menvelope_b U_virtual ["tool"; "app"; "sh"] = true /\ envelope_b U_virtual ["tool"; "app"; "sh"] = false /\
+  resolve U_virtual ["tool"; "app"; "sh"] [] = Ok [1; 6; 2; 7; 0] /\
+  closed_b U_virtual ["tool"; "app"; "sh"] (pkgs_of U_virtual [1; 6; 2; 7; 0]) = true.
+Proof. exact virtual_example. Qed.
 
 (* REFUTED: "the envelope minus one clause suffices", for the clauses at positions 0, 3, 4, 5, 6 of
    m_clauses: on each witness exactly that clause fails and the successful result is not closed.
